@@ -1,13 +1,16 @@
 #![allow(dead_code)]
 pub mod atomic_diff;
 pub mod checks;
+pub mod clockcheck;
 pub mod common;
 pub mod drive;
 pub mod explore;
 pub mod fam_async;
 pub mod fam_atomic;
+pub mod fam_iso;
 pub mod fam_lock;
 pub mod fam_mpsc;
+pub mod fam_rand;
 pub mod fam_sem;
 pub mod fam_sync;
 pub mod fam_thread;
